@@ -799,6 +799,12 @@ def seed_truthiness(repo: Path):
     return out
 
 
+def _has_bracket(fn) -> bool:
+    return any(isinstance(w, ast.With) and any(
+        isinstance(i.context_expr, ast.Call) and _callname(i.context_expr).split(".")[-1] == "set_random_seed"
+        for i in w.items) for w in ast.walk(fn))
+
+
 def models(repo: Path):
     root = repo / "pyxel" / "models"
     if not root.is_dir():
@@ -859,6 +865,10 @@ def models(repo: Path):
         params = [a.arg for a in node.args.args + node.args.kwonlyargs + node.args.posonlyargs]
         if "seed" not in params:
             continue
+        # a bracket that lives in a private helper of the same module / class (`with set_random_seed(seed)` moved into
+        # a function that is handed `seed`) reads like the bracket written in place: inline such helpers first
+        clsnode = next((c for c in mods[rel].body if isinstance(c, ast.ClassDef) and c.name == cls), None) if cls else None
+        node = norm.normalised(node, mods[rel], clsnode, only=_has_bracket)
         inside_ids = set()
         bracket_seed = False
         n_brackets = 0
